@@ -85,6 +85,28 @@ def run(ctx):
                                                                format(0, 'x')) for a in rec['arts'] if a['after']['weak']][:5]})
     ctx.distinct.update(by)
     recs = recs + pop
+  # healthy keys on the boundary of the ROCA fingerprint (a power of 65537 modulo all of the 39 primes but one): the residue
+  # criterion of Roca.tla says "not ROCA" for each of them
+  from pv import drive_C06, proc
+  near = drive_C06.near_roca_keys(ctx.rng)
+  nres = list(proc.imap_unordered(drive_C06.rsa_worker, [(t, n_, e_, nb_, False, False) for t, n_, e_, nb_ in near], procs=15, chunk=2))
+  nrecs = []
+  for rec, err in nres:
+    if err:
+      raise tlc.MachineryError('near-ROCA worker crashed:\n%s' % err)
+    rec['sid'] = rec['sid'].replace('C06-', 'C07-')
+    nrecs.append(rec)
+  if ctx.only_sid:
+    nrecs = [x for x in nrecs if x['sid'] == ctx.only_sid]
+  if nrecs:
+    c, fails, trs = tlc.validate_trace_parallel('ChecksTrace', 'ChecksTrace.cfg', nrecs, 'C07roca', jobs=4, timeout=3600)
+    ctx.validated += c
+    ctx.replayed += len(nrecs)
+    by = {x['sid']: x for x in nrecs}
+    ctx.trace_failures(fails, by, lambda rec, f: {'kind': 'rsa', 'near_roca': rec.get('scenario'), 'raised': rec['raised'],
+                                                  'entries': [(e['name'], e['result']) for e in rec['arts'][0]['after']['entries']]})
+    ctx.distinct.update(by)
+  ctx.notes['healthy_near_roca_keys'] = len(nrecs)
   ctx.notes['healthy_rsa_population'] = nb * per
   healthy = sum(1 for x in recs for a in x['arts'] if a['cls'].startswith('healthy'))
   ctx.notes['healthy_artifact_checks'] = healthy
